@@ -32,6 +32,10 @@ CONSTANTS ChId,        \* ChId[c]: the channel's byte id (position c = position 
           QCap,        \* QCap[c]: SendQueueCapacity
           RCap,        \* RCap[c]: RecvMessageCapacity
           MaxPayload,  \* MConnConfig.MaxPacketMsgPayloadSize
+          DrainAfter,  \* {} = as specified and as the code is: after ANY error recvRoutine leaves its loop (break FOR_LOOP).
+                       \* A set of stop kinds ("cap", "chan", "err") = the mistake of leaving only the switch (a bare
+                       \* `break`) in that error branch: the connection is stopped and onError called, but the loop goes on
+                       \* consuming the packets it has ALREADY READ into its bufio buffer (NAMED DEVIATION, see RecvPacketOp)
           EmptyLoss    \* FALSE = as specified (and the code since /repo commit "fix: MConnection no longer drops
                        \* zero-length messages").  TRUE = connection.go before that commit: isSendPending() tested
                        \* len(ch.sending) == 0, so a zero-length message that was taken from the queue during a scan
@@ -43,13 +47,19 @@ MinI(a, b) == IF a < b THEN a ELSE b
 NoMsg == [id |-> 0, len |-> 0, off |-> 0]
 
 \* sendq[c]  Channel.sendQueue (messages [id, len])       snd[c]   Channel.sending: message and bytes already packetised
-\* recent[c] Channel.recentlySent                         wire     packets written and not yet read by the peer
-\* rcv[c]    Channel.recving as a list of fragments       dlv[c]   messages handed to onReceive, as fragment lists
-\* rstop     "" running, "cap" / "chan" the receiver stopped with that error (stopForError)
+\* recent[c] Channel.recentlySent                         obuf     packets in the sender's bufConnWriter, not flushed yet
+\* wire      BATCHES of packets: one flush = one batch = what one read of the receiver's bufio.Reader can take in
+\* rbuf      the rest of the batch the receiver has read and not yet consumed (bufConnReader's buffer)
+\* rcv[c]    Channel.recving as a list of fragments       dlv[c]   messages handed to onReceive: [id, fr fragments,
+\*                                                                 late = delivered after the connection had stopped]
+\* rstop     "" running, else the first error the receiver stopped with (stopForError): "cap" capacity exceeded,
+\*           "chan" unknown channel, "err" malformed / over-long / empty packet or read error
+\* rhalt     the receive loop has really been left (always together with rstop unless DrainAfter says otherwise)
 \* sent[c]   ghost: messages accepted by Send, in order   nid      next message id
 \* lost      ghost: ids of messages dropped by the EmptyLoss deviation
 Empty == [sendq  |-> [c \in Ch |-> <<>>], snd |-> [c \in Ch |-> NoMsg], recent |-> [c \in Ch |-> 0],
-          wire   |-> <<>>, rcv |-> [c \in Ch |-> <<>>], dlv |-> [c \in Ch |-> <<>>], rstop |-> "",
+          obuf   |-> <<>>, wire |-> <<>>, rbuf |-> <<>>, rcv |-> [c \in Ch |-> <<>>], dlv |-> [c \in Ch |-> <<>>],
+          rstop  |-> "", rhalt |-> FALSE,
           sent   |-> [c \in Ch |-> <<>>], nid |-> 1, lost |-> {}]
 
 \* ---- wire size of a packet (protoio delimited kp2p.Packet{PacketMsg}), needed for recentlySent ----
@@ -89,10 +99,10 @@ SendPacketCore(m, c) ==
       rem  == x.len - x.off
       n    == MinI(MaxPayload, rem)
       eof  == rem <= MaxPayload
-      pkt  == [c |-> c, eof |-> eof, len |-> n, id |-> x.id, off |-> x.off]
+      pkt  == [k |-> "msg", c |-> c, eof |-> eof, len |-> n, id |-> x.id, off |-> x.off]
   IN [st  |-> [p EXCEPT !.snd[c]    = IF eof THEN NoMsg ELSE [x EXCEPT !.off = @ + n],
                         !.recent[c] = @ + PacketSize(ChId[c], eof, n),
-                        !.wire      = Append(@, pkt)],
+                        !.obuf      = Append(@, pkt)],
       res |-> <<eof, n>>]
 
 \* The general packetisation rule, of which SendPacketCore is the code's instance (fill every packet, EOF on the
@@ -104,10 +114,10 @@ CanPacket(m, c, eof, n) == LET x == Popped(m).snd[c] IN
                            /\ eof => n = x.len - x.off
 SendPacketGen(m, c, eof, n) ==
   LET p == Popped(m)  x == p.snd[c]
-      pkt == [c |-> c, eof |-> eof, len |-> n, id |-> x.id, off |-> x.off]
+      pkt == [k |-> "msg", c |-> c, eof |-> eof, len |-> n, id |-> x.id, off |-> x.off]
   IN [p EXCEPT !.snd[c]    = IF eof THEN NoMsg ELSE [x EXCEPT !.off = @ + n],
                !.recent[c] = @ + PacketSize(ChId[c], eof, n),
-               !.wire      = Append(@, pkt)]
+               !.obuf      = Append(@, pkt)]
 
 \* NAMED DEVIATION "empty message lost" (found by this check, repaired in /repo).  isSendPending() decided "no
 \* message in progress" by len(ch.sending) == 0.  sendPacketMsg calls it on EVERY channel before choosing one, so a
@@ -121,8 +131,19 @@ Forget(p, c) == LET gone == {d \in Ch \ {c} : Active(p.snd[d]) /\ p.snd[d].len =
 SendPacketOp(m, c) == LET r == SendPacketCore(m, c) IN
                       IF EmptyLoss THEN [st |-> Forget(r.st, c), res |-> r.res] ELSE r
 
-\* a peer that knows another channel set sends a packet on a channel we do not have (pk.c = 0)
-UnknownChannelOp(m) == [m EXCEPT !.wire = Append(@, [c |-> 0, eof |-> TRUE, len |-> 1, id |-> 0, off |-> 0])]
+\* bufConnWriter.Flush(): everything written since the last flush goes out together.  sendRoutine batches (up to
+\* numBatchPacketMsgs packets per wake-up, flush throttled) and the SecretConnection below carries up to 1024 bytes
+\* per frame, so the receiver regularly has SEVERAL packets in its read buffer at once.
+FlushOp(m) == IF m.obuf = <<>> THEN m ELSE [m EXCEPT !.wire = Append(@, m.obuf), !.obuf = <<>>]
+LastPacket(m) == m.obuf[Len(m.obuf)]
+
+\* something other than a PacketMsg of ours gets into the stream (a peer with another channel set, a broken or
+\* hostile peer, the connection itself):
+\*   "unknown"   PacketMsg on a channel we do not have           "ping" / "pong"  keep-alive packets (harmless)
+\*   "malformed" bytes that do not unmarshal as a Packet           "toolong"  a length prefix above maxPacketMsgSize
+\*   "nosum"     a Packet without content (unknown message type)  "readerr"  the underlying read returns an error
+InjectKinds == {"unknown", "ping", "pong", "malformed", "toolong", "nosum", "readerr"}
+InjectOp(m, kind) == [m EXCEPT !.obuf = Append(@, [k |-> kind, c |-> 0, eof |-> TRUE, len |-> 1, id |-> 0, off |-> 0])]
 
 \* recentlySent := int64(float64(recentlySent) * 0.8)
 UpdateStatsOp(m) == [m EXCEPT !.recent = [c \in Ch |-> (m.recent[c] * 4) \div 5]]
@@ -131,18 +152,34 @@ UpdateStatsOp(m) == [m EXCEPT !.recent = [c \in Ch |-> (m.recent[c] * 4) \div 5]
 RECURSIVE FragLen(_)
 FragLen(fs) == IF fs = <<>> THEN 0 ELSE Head(fs).len + FragLen(Tail(fs))
 
-\* the next packet on the wire is read (the receiver must be running and the wire non-empty).
-\* res: "" buffered, "deliver" onReceive called, "cap" refused for capacity, "chan" unknown channel (the
-\* connection stops in both cases: stopForError)
+\* The receiver takes a whole batch into its read buffer and consumes it packet by packet.  After ANY error it calls
+\* stopForError (Stop, onError) and LEAVES THE LOOP: what is still in the read buffer is never looked at.
+\* DrainAfter # {} is the deviation: after an error of such a kind the loop goes on through the buffer.  The refused
+\* packet was not appended to Channel.recving and the earlier packets of the refused message are still there, so a
+\* following small EOF packet on that channel "fits" again and a byte string nobody sent is handed to onReceive --
+\* after onError.
+Loaded(m)  == IF m.rbuf = <<>> /\ m.wire # <<>> THEN [m EXCEPT !.rbuf = Head(m.wire), !.wire = Tail(m.wire)] ELSE m
+WireEmpty(m) == m.wire = <<>> /\ m.rbuf = <<>>
+CanRecv(m) == \/ m.rstop = "" /\ ~WireEmpty(m)
+              \/ m.rstop # "" /\ ~m.rhalt /\ m.rbuf # <<>>
+NextPacket(m) == Head(Loaded(m).rbuf)
+\* res: "" consumed without effect for the reactor, "deliver" onReceive called, "cap" / "chan" / "err" stopForError
 RecvPacketOp(m) ==
-  LET pk == Head(m.wire)  c == pk.c IN
-  IF c = 0 THEN [st |-> [m EXCEPT !.wire = Tail(@), !.rstop = "chan"], res |-> "chan"]
-  ELSE IF RCap[c] < FragLen(m.rcv[c]) + pk.len
-  THEN [st |-> [m EXCEPT !.wire = Tail(@), !.rstop = "cap"], res |-> "cap"]
-  ELSE LET buf == IF pk.len > 0 THEN Append(m.rcv[c], [id |-> pk.id, off |-> pk.off, len |-> pk.len]) ELSE m.rcv[c]
-       IN IF pk.eof
-          THEN [st |-> [m EXCEPT !.wire = Tail(@), !.rcv[c] = <<>>, !.dlv[c] = Append(@, [id |-> pk.id, fr |-> buf])], res |-> "deliver"]
-          ELSE [st |-> [m EXCEPT !.wire = Tail(@), !.rcv[c] = buf], res |-> ""]
+  LET x0   == Loaded(m)
+      pk   == Head(x0.rbuf)
+      x    == [x0 EXCEPT !.rbuf = Tail(@)]
+      late == m.rstop # ""
+      c    == pk.c
+      Stop(kind) == [st  |-> [x EXCEPT !.rstop = IF late THEN @ ELSE kind, !.rhalt = (@ \/ kind \notin DrainAfter)],
+                     res |-> kind]
+  IN IF pk.k \in {"ping", "pong"} THEN [st |-> x, res |-> ""]
+     ELSE IF pk.k \in {"malformed", "toolong", "nosum", "readerr"} THEN Stop("err")
+     ELSE IF pk.k = "unknown" THEN Stop("chan")
+     ELSE IF RCap[c] < FragLen(x.rcv[c]) + pk.len THEN Stop("cap")      \* recving is left as it is
+     ELSE LET buf == IF pk.len > 0 THEN Append(x.rcv[c], [id |-> pk.id, off |-> pk.off, len |-> pk.len]) ELSE x.rcv[c]
+          IN IF pk.eof
+             THEN [st |-> [x EXCEPT !.rcv[c] = <<>>, !.dlv[c] = Append(@, [id |-> pk.id, fr |-> buf, late |-> late])], res |-> "deliver"]
+             ELSE [st |-> [x EXCEPT !.rcv[c] = buf], res |-> ""]
 
 \* ---- the properties -------------------------------------------------------------------------------
 Ids(seq)     == [i \in 1..Len(seq) |-> seq[i].id]
@@ -169,8 +206,14 @@ OversizeRefused(m) == \A c \in Ch : /\ FragLen(m.rcv[c]) <= RCap[c]
                                     /\ \A i \in 1..Len(m.dlv[c]) : MsgOf(m, c, m.dlv[c][i].id).len <= RCap[c]
 \* ... and the connection stops exactly when such a message arrives
 StopsOnlyForOversize(m) == m.rstop = "cap" => \E c \in Ch : \E i \in 1..Len(m.sent[c]) : m.sent[c][i].len > RCap[c]
-\* when everything has been sent and read and the connection is alive, everything was delivered
-Quiescent(m)    == ~AnyPending(m) /\ (m.wire = <<>> \/ m.rstop # "")
+\* after an error of any kind nothing is handed to the reactor any more
+NoDeliveryAfterError(m) == \A c \in Ch : \A i \in 1..Len(m.dlv[c]) : ~m.dlv[c][i].late
+\* every byte string handed to the reactor is one of the messages sent on that channel, and each at most once
+DeliveredIsSent(m) == \A c \in Ch :
+      /\ \A i \in 1..Len(m.dlv[c]) : Intact(m, c, m.dlv[c][i])
+      /\ \A a, b \in 1..Len(m.dlv[c]) : (a # b) => (m.dlv[c][a].id # m.dlv[c][b].id)
+\* when everything has been sent, flushed and read and the connection is alive, everything was delivered
+Quiescent(m)    == ~AnyPending(m) /\ m.obuf = <<>> /\ ~CanRecv(m)
 AllDelivered(m) == (Quiescent(m) /\ m.rstop = "") => \A c \in Ch : Ids(m.dlv[c]) = Ids(m.sent[c])
 \* the named deviation: a message is lost
 EmptyLost(m) == m.lost # {}
